@@ -275,7 +275,7 @@ TYPE_SPLIT = ['Color3DCode', 'Color666ToricCode']
 
 
 def obligations(tier):
-    to = 300 if tier == 'quick' else 900       # z3 time limit per query; the slowest quick obligation takes 30 s alone and up to 125 s with 16 solvers running
+    to = 150 if tier == 'quick' else 900       # z3 time limit per query; the slowest quick obligation takes 30 s alone and up to 125 s with 16 solvers running
     obs = []
     for cls in P_COMM:
         lat, pre = lattice(cls)
